@@ -1,0 +1,140 @@
+//go:build verif
+
+package go_clipper2
+
+// Verification hooks. This file is compiled only with the build tag "verif";
+// it adds exported aliases for unexported predicates and options and a
+// structural state dump. It changes no behaviour of the package.
+
+import (
+	"fmt"
+	"reflect"
+	"strings"
+)
+
+func VerifIsCollinear(pt1, sharedPt, pt2 Point64) bool { return isCollinear(pt1, sharedPt, pt2) }
+
+func VerifProductsAreEqual(a, b, c, d int64) bool { return productsAreEqual(a, b, c, d) }
+
+func VerifTriSign(x int64) int { return triSign(x) }
+
+func VerifSegsIntersect(a1, a2, b1, b2 Point64, inclusive bool) bool {
+	return segsIntersect(a1, a2, b1, b2, inclusive)
+}
+
+func VerifGetSegmentIntersectPt(a1, a2, b1, b2 Point64) (Point64, bool) {
+	return getSegmentIntersectPt(a1, a2, b1, b2)
+}
+
+func VerifGetClosestPtOnSegment(offPt, seg1, seg2 Point64) Point64 {
+	return getClosestPtOnSegment(offPt, seg1, seg2)
+}
+
+// VerifSetOptions sets the two engine options that only ClipperOffset can set
+// in the shipped API.
+func (c *clipper64) VerifSetOptions(preserveCollinear, reverseSolution bool) {
+	c.preserveCollinear = preserveCollinear
+	c.reverseSolution = reverseSolution
+}
+
+func (c *clipperD) VerifSetOptions(preserveCollinear, reverseSolution bool) {
+	c.preserveCollinear = preserveCollinear
+	c.reverseSolution = reverseSolution
+}
+
+// VerifDumpState serialises every field reachable from the engine, with
+// pointer graphs flattened to visit indices, so that two engines have equal
+// dumps exactly when their states are structurally identical.
+func (c *clipper64) VerifDumpState() string { return verifDump(reflect.ValueOf(c.clipperBase)) }
+
+func (c *clipperD) VerifDumpState() string {
+	return fmt.Sprintf("scale=%v inv=%v ", c.scale, c.invScale) + verifDump(reflect.ValueOf(c.clipperBase))
+}
+
+func (co *ClipperOffset) VerifDumpState() string { return verifDump(reflect.ValueOf(co)) }
+
+func (r *RectClip64) VerifDumpState() string { return verifDump(reflect.ValueOf(r)) }
+
+func verifDump(v reflect.Value) string {
+	var sb strings.Builder
+	seen := map[uintptr]int{}
+	verifDumpRec(&sb, v, seen)
+	return sb.String()
+}
+
+func verifDumpRec(sb *strings.Builder, v reflect.Value, seen map[uintptr]int) {
+	switch v.Kind() {
+	case reflect.Bool:
+		fmt.Fprintf(sb, "%v", v.Bool())
+	case reflect.Int, reflect.Int8, reflect.Int16, reflect.Int32, reflect.Int64:
+		fmt.Fprintf(sb, "%d", v.Int())
+	case reflect.Uint, reflect.Uint8, reflect.Uint16, reflect.Uint32, reflect.Uint64, reflect.Uintptr:
+		fmt.Fprintf(sb, "%d", v.Uint())
+	case reflect.Float32, reflect.Float64:
+		fmt.Fprintf(sb, "%v", v.Float())
+	case reflect.String:
+		fmt.Fprintf(sb, "%q", v.String())
+	case reflect.Ptr:
+		if v.IsNil() {
+			sb.WriteString("nil")
+			return
+		}
+		p := v.Pointer()
+		if id, ok := seen[p]; ok {
+			fmt.Fprintf(sb, "@%d", id)
+			return
+		}
+		id := len(seen)
+		seen[p] = id
+		fmt.Fprintf(sb, "&%d", id)
+		verifDumpRec(sb, v.Elem(), seen)
+	case reflect.Struct:
+		sb.WriteString("{")
+		t := v.Type()
+		for i := 0; i < v.NumField(); i++ {
+			if i > 0 {
+				sb.WriteString(" ")
+			}
+			sb.WriteString(t.Field(i).Name)
+			sb.WriteString(":")
+			verifDumpRec(sb, v.Field(i), seen)
+		}
+		sb.WriteString("}")
+	case reflect.Slice:
+		if v.IsNil() {
+			sb.WriteString("nil[]")
+			return
+		}
+		fmt.Fprintf(sb, "[%d:", v.Len())
+		for i := 0; i < v.Len(); i++ {
+			if i > 0 {
+				sb.WriteString(" ")
+			}
+			verifDumpRec(sb, v.Index(i), seen)
+		}
+		sb.WriteString("]")
+	case reflect.Array:
+		sb.WriteString("[")
+		for i := 0; i < v.Len(); i++ {
+			if i > 0 {
+				sb.WriteString(" ")
+			}
+			verifDumpRec(sb, v.Index(i), seen)
+		}
+		sb.WriteString("]")
+	case reflect.Func:
+		if v.IsNil() {
+			sb.WriteString("nilfunc")
+		} else {
+			sb.WriteString("func")
+		}
+	case reflect.Interface:
+		if v.IsNil() {
+			sb.WriteString("nilif")
+		} else {
+			verifDumpRec(sb, v.Elem(), seen)
+		}
+	default:
+		fmt.Fprintf(sb, "?%s", v.Kind())
+	}
+}
